@@ -363,7 +363,9 @@ func isMuArg(w *World, args []ssa.Value) bool {
 	return ok && g.Pkg != nil && g.Pkg.Pkg.Path() == modPath+"/xpath" && g.Name() == "mu"
 }
 
-func c06Globals(w *World, r *Report) {
+func c06Globals(w *World, r *Report) { c06GlobalsRule(w, r, "R06.3") }
+
+func c06GlobalsRule(w *World, r *Report, rule string) {
 	eff := NewEffects(w)
 	type access struct {
 		fn    *ssa.Function
@@ -411,6 +413,19 @@ func c06Globals(w *World, r *Report) {
 						gl := eff.rootsOf(a).globals
 						if len(gl) == 0 {
 							continue
+						}
+						// an external method or function that is not known to be read-only (sync.Map.Store/LoadOrStore,
+						// container mutators …) applied to a package-level object writes it
+						if ext := cc.StaticCallee(); ext != nil && !eff.inModule(ext) && !isPureExternal(ext) && ext.Pkg != nil && ext.Pkg.Pkg.Path() != "sync/atomic" {
+							isLock := ext.Pkg.Pkg.Path() == "sync" && (strings.HasSuffix(ext.Name(), "Lock") || strings.HasSuffix(ext.Name(), "Unlock"))
+							isLoad := ext.Pkg.Pkg.Path() == "sync" && (ext.Name() == "Load" || ext.Name() == "Range")
+							if !isLock && !isLoad {
+								for g := range gl {
+									if g.Pkg != nil && inScope[g.Pkg] {
+										acc[g] = append(acc[g], access{fn, true, in.Pos()})
+									}
+								}
+							}
 						}
 						for _, c := range callees {
 							if i >= len(c.Params) {
@@ -529,15 +544,15 @@ func c06Globals(w *World, r *Report) {
 				if a.write {
 					what = "written"
 				}
-				r.Fail("R06.3", fmt.Sprintf("%s %s in %s", name, what, funcKey(a.fn)), a.pos,
+				r.Fail(rule, fmt.Sprintf("%s %s in %s", name, what, funcKey(a.fn)), a.pos,
 					fmt.Sprintf("package-level variable %s is %s without holding mu %s: data race with concurrent compilation/evaluation", name, what, map[int]string{1: "(at least in read mode)", 2: "exclusively"}[need]))
 			}
 		}
 		if ok {
-			r.OK("R06.3", name, g.Pos(), "mutable after init; every access holds mu in the required mode")
+			r.OK(rule, name, g.Pos(), "mutable after init; every access holds mu in the required mode")
 		}
 	}
-	r.OK("R06.3", "read-only package variables", token.NoPos, fmt.Sprintf("%d variables never written outside init", nRO))
+	r.OK(rule, "read-only package variables", token.NoPos, fmt.Sprintf("%d variables never written outside init", nRO))
 	var api []string
 	for k := range apiOnly {
 		api = append(api, k)
